@@ -184,16 +184,47 @@ def _canon_items(items: list) -> str:
     return _sort_bars(out)
 
 
+def _protect_angles(line: str, table: dict) -> str:
+    """Replace every outermost `<...>` group (`<dict containing {...}>`, `<Color.RED: 1>`, `<+x predicate ...>`) by an
+    atomic, content-derived token, so that the spaces, commas and bars inside do not take part in splitting."""
+    stack: list = []
+    pairs: list = []
+    for i, ch in enumerate(line):
+        if ch == "<" and i + 1 < len(line) and (line[i + 1].isalpha() or line[i + 1] in "+-_<"):
+            stack.append(i)
+        elif ch == ">" and stack and i > 0 and line[i - 1] not in "- ":
+            j = stack.pop()
+            if not stack:
+                pairs.append((j, i))
+    if not pairs:
+        return line
+    out, pos = [], 0
+    for j, i in pairs:
+        inner = "<" + _canon_line(line[j + 1 : i]) + ">"
+        token = "\x00" + digest(inner) + "\x00"
+        table[token] = inner
+        out.append(line[pos:j])
+        out.append(token)
+        pos = i + 1
+    out.append(line[pos:])
+    return "".join(out)
+
+
+def _canon_line(line: str) -> str:
+    table: dict = {}
+    prot = _protect_angles(line, table)
+    try:
+        out = _canon_items(_parse(prot))
+    except (ValueError, AttributeError):
+        out = prot
+    for token, text in table.items():
+        out = out.replace(token, text)
+    return out
+
+
 def canon_union(msg: str) -> str:
     """Sort the members of every `A | B | C` and `Literal[...]`/`Union[...]` list (line by line)."""
-    lines = []
-    for line in msg.split("\n"):
-        line = line.replace(" containing [", "_containing_[")
-        try:
-            lines.append(_canon_items(_parse(line)))
-        except (ValueError, AttributeError):
-            lines.append(line)
-    return "\n".join(lines)
+    return "\n".join(_canon_line(line) for line in msg.split("\n"))
 
 
 _ITEM = r"(?:[bBrRuU]{0,2}'[^'\n]*'|[bBrRuU]{0,2}\"[^\"\n]*\"|[\w.<>-]+)"
